@@ -25,6 +25,9 @@ def main():
             print(c, p.returncode, results[c][1])
     finally:
         subprocess.check_call("git -C /repo checkout -- .", shell=True)
+        # the checks regenerated lean/D42/Gen/*.lean from the CHANGED tree: put back what the clean tree says, so that a later
+        # `git add -A` in /verif cannot commit a model of the seeded change
+        subprocess.call(["/venv/bin/python", os.path.join(HERE, "tools_regen.py")], stdout=subprocess.DEVNULL, stderr=subprocess.DEVNULL)
     return 0
 
 
